@@ -40,7 +40,10 @@ func (e *Engine) verifyFunc(fn *ssa.Function, fc *FuncContract) (c *FnCtx, err e
 
 func (c *FnCtx) run() {
 	fn := c.fn
-	st := &State{cells: map[*ssa.Alloc]Val{}, heap: map[string]string{}, reach: "true"}
+	st := &State{cells: map[*ssa.Alloc]Val{}, heap: map[string]string{}, reach: "true", ghostInts: map[string]string{}}
+	for _, ct := range c.fc.Counters {
+		st.ghostInts[ct[0]] = "0"
+	}
 	st.nextRef = c.declare("nextRef", sInt)
 	c.assert(lt("1000", st.nextRef))
 	// parameters
@@ -112,6 +115,26 @@ func (c *FnCtx) run() {
 	}
 	c.findLoops()
 	c.checkFrame()
+	for _, cl := range c.fc.Clauses {
+		if cl.Kind == "callsites" {
+			want := strings.Join(strings.Fields(cl.At), "")
+			n := 0
+			for _, b := range fn.Blocks {
+				for _, in := range b.Instrs {
+					if call, ok := in.(*ssa.Call); ok && call.Pos().IsValid() && strings.HasPrefix(c.anchor(call), want) {
+						n++
+					}
+				}
+			}
+			cond := "true"
+			if n != cl.AtOrd {
+				cond = "false"
+			}
+			o := c.obligeAlways(st, "count", "callsites:"+cl.At, fn.Pos(), cond,
+				fmt.Sprintf("the body has exactly %d call sites starting with %q (found %d): the reviewed set of such sites is unchanged", cl.AtOrd, cl.At, n), cl.Tags)
+			_ = o
+		}
+	}
 	for _, cl := range c.fc.Clauses {
 		if cl.Kind == "assert" || cl.Kind == "assume" || cl.Kind == "ghostat" {
 			c.ghostAt = append(c.ghostAt, ghostClause{cl: cl})
@@ -440,6 +463,14 @@ func (c *FnCtx) mergeIn(b *ssa.BasicBlock) *State {
 		c.nfresh++
 		st.epochs = []epochRec{{"", c.nfresh}}
 	}
+	st.ghostInts = map[string]string{}
+	for _, ct := range c.fc.Counters {
+		var ts []string
+		for _, es := range ins {
+			ts = append(ts, es.st.ghostInts[ct[0]])
+		}
+		st.ghostInts[ct[0]] = c.mergeTerms(ts, conds, sInt, "cnt."+ct[0])
+	}
 	var nrs []string
 	for _, es := range ins {
 		nrs = append(nrs, es.st.nextRef)
@@ -541,6 +572,25 @@ func (c *FnCtx) execBlock(b *ssa.BasicBlock) {
 		// havoc
 		pre := st.clone()
 		var first []string
+		for _, ct := range c.fc.Counters {
+			// only counters of calls that occur inside the loop change there
+			inLoop := false
+			want := strings.Join(strings.Fields(ct[1]), "")
+			for lb := range li.blocks {
+				for _, lin := range lb.Instrs {
+					if call, ok := lin.(*ssa.Call); ok && call.Pos().IsValid() && strings.HasPrefix(c.anchor(call), want) {
+						inLoop = true
+					}
+				}
+			}
+			if !inLoop {
+				continue
+			}
+			nv := c.declare("cnt."+ct[0], sInt)
+			c.assert(le(st.ghostInts[ct[0]], nv))
+			first = append(first, eq(st.ghostInts[ct[0]], nv))
+			st.ghostInts[ct[0]] = nv
+		}
 		for a := range li.cells {
 			if old, ok := st.cells[a]; ok {
 				st.cells[a] = c.freshVal(st, a.Type().(*types.Pointer).Elem(), "h."+a.Comment)
@@ -788,6 +838,14 @@ func (c *FnCtx) execInstr(st *State, b *ssa.BasicBlock, in ssa.Instruction) bool
 		}
 		c.vals[in] = c.mergeVals(vs, conds, "phi")
 	case *ssa.Call:
+		if len(c.fc.Counters) > 0 && in.Pos().IsValid() {
+			txt := c.anchor(in)
+			for _, ct := range c.fc.Counters {
+				if strings.HasPrefix(txt, strings.Join(strings.Fields(ct[1]), "")) {
+					st.ghostInts[ct[0]] = c.define("cnt."+ct[0], sInt, plus(st.ghostInts[ct[0]], "1"))
+				}
+			}
+		}
 		c.vals[in] = c.execCall(st, in, &in.Call)
 		if c.noRet {
 			c.noRet = false
@@ -1338,7 +1396,12 @@ func (c *FnCtx) execReturn(st *State, in *ssa.Return) {
 			e2.cells = true
 			penv = &e2
 		}
-		c.oblige(st, "post", name+"@"+c.eng.srcLine(in.Pos()), in.Pos(), penv.evalBool(cl.E), "postcondition: "+cl.Text, cl.Tags)
+		if len(c.fc.Counters) > 0 {
+			// call-count clauses often fold to true on a path; they are still obligations of that path
+			c.obligeAlways(st, "post", name+"@"+c.eng.srcLine(in.Pos())+c.occurrence(in.Pos()), in.Pos(), penv.evalBool(cl.E), "postcondition: "+cl.Text, cl.Tags)
+		} else {
+			c.oblige(st, "post", name+"@"+c.eng.srcLine(in.Pos())+c.occurrence(in.Pos()), in.Pos(), penv.evalBool(cl.E), "postcondition: "+cl.Text, cl.Tags)
+		}
 	}
 	if c.refineOf != nil {
 		// behavioural subtyping: under the interface's precondition the implementation meets the interface's postconditions
@@ -1352,7 +1415,7 @@ func (c *FnCtx) execReturn(st *State, in *ssa.Return) {
 			if name == "" {
 				name = fmt.Sprint(k)
 			}
-			c.oblige(st, "refines", name+"@"+c.eng.srcLine(in.Pos()), in.Pos(), implies(c.refineHyp, env.evalBool(cl.E)),
+			c.oblige(st, "refines", name+"@"+c.eng.srcLine(in.Pos())+c.occurrence(in.Pos()), in.Pos(), implies(c.refineHyp, env.evalBool(cl.E)),
 				"refines "+c.fc.Refines+": "+cl.Text, cl.Tags)
 		}
 	}
